@@ -248,3 +248,6 @@ func parseNodeAt(s string) (datamodel.Node, string, error) {
 }
 
 func basicInt(i int64) datamodel.Node { return basicnode.NewInt(i) }
+
+func basicLink(c cid.Cid) datamodel.Node { return basicnode.NewLink(cidlink.Link{Cid: c}) }
+func basicBytes(b []byte) datamodel.Node { return basicnode.NewBytes(b) }
